@@ -95,7 +95,7 @@ func c07AggregateBest(n, levels int) {
 		}
 		bits := bitfield.NewBitlist(8)
 		if p.outcome == oValid {
-			// 1..3 of 8 attesters included: three distinct scores
+			// 0..2 of 8 attesters included: distinct scores, the lowest of them 0
 			included := 0
 			if c07Orders {
 				if i == 0 {
@@ -105,7 +105,7 @@ func c07AggregateBest(n, levels int) {
 			} else {
 				included = vnd.Choose("included", levels)
 			}
-			for k := 0; k <= included; k++ {
+			for k := 0; k < included; k++ { // the lowest level is an empty aggregate: valid, score 0
 				bits.SetBitAt(uint64(k), true)
 			}
 		}
